@@ -111,7 +111,7 @@ func ReadNodeInfoWithoutData(br *bufio.Reader) (cid.Cid, uint64, error) {
 
 	cidLen, c, err := cid.CidFromReader(br)
 	if err != nil {
-		return cid.Cid{}, 0, err
+		return cid.Cid{}, 0, unexpectedEOF(err)
 	}
 
 	// Seek to the next section by skipping the block.
@@ -120,7 +120,7 @@ func ReadNodeInfoWithoutData(br *bufio.Reader) (cid.Cid, uint64, error) {
 
 	_, err = io.CopyN(io.Discard, br, remainingSectionLen)
 	if err != nil {
-		return cid.Cid{}, 0, err
+		return cid.Cid{}, 0, unexpectedEOF(err)
 	}
 
 	return c, sectionLen + ll, nil
@@ -134,7 +134,7 @@ func ReadNodeInfoWithData(br *bufio.Reader) (cid.Cid, uint64, []byte, error) {
 
 	cidLen, c, err := cid.CidFromReader(br)
 	if err != nil {
-		return cid.Cid{}, 0, nil, fmt.Errorf("failed to read cid: %w", err)
+		return cid.Cid{}, 0, nil, fmt.Errorf("failed to read cid: %w", unexpectedEOF(err))
 	}
 
 	// Seek to the next section by skipping the block.
@@ -144,10 +144,21 @@ func ReadNodeInfoWithData(br *bufio.Reader) (cid.Cid, uint64, []byte, error) {
 	buf := make([]byte, remainingSectionLen)
 	_, err = io.ReadFull(br, buf)
 	if err != nil {
-		return cid.Cid{}, 0, nil, fmt.Errorf("failed to read block: %w", err)
+		return cid.Cid{}, 0, nil, fmt.Errorf("failed to read block: %w", unexpectedEOF(err))
 	}
 
 	return c, sectionLen + ll, buf, nil
+}
+
+// unexpectedEOF is applied to errors that occur after the length prefix of a section has been
+// read: running out of input there means the CAR is truncated, which must not be mistaken for the
+// regular end of the file (callers test errors.Is(err, io.EOF) to detect the end of the CAR;
+// cid.CidFromReader and io.ReadFull report io.EOF when they find no byte at all).
+func unexpectedEOF(err error) error {
+	if errors.Is(err, io.EOF) {
+		return io.ErrUnexpectedEOF
+	}
+	return err
 }
 
 func ReadSectionLength(r *bufio.Reader) (uint64, uint64, error) {
